@@ -8,6 +8,108 @@ SRC = ["h/h_c14.c", "env/net.c", "wrap/w_comm_scaled.c"]
 
 def build(ck):
     kw = dict(wraps=vlib.STD_WRAPS + NETWRAPS, replace_stem=["comm.c"])
-    return {"h_c14": ck.harness("h_c14", SRC, **kw),
-            "h_c14s8": ck.harness("h_c14s8", SRC, cflags=["-DVW_MSG_SIZE=8"], **kw),
-            "h_c14s16": ck.harness("h_c14s16", SRC, cflags=["-DVW_MSG_SIZE=16"], **kw)}
+    ex = {}
+    for name, flags in (("h_c14", []), ("h_c14s8", ["-DVW_MSG_SIZE=8"]), ("h_c14s16", ["-DVW_MSG_SIZE=16"])):
+        ex[name] = ck.harness(name, SRC, cflags=flags, **kw)                        # ASan + UBSan
+        ex[name + "p"] = ck.harness(name + "p", SRC, profile="plain", cflags=flags, **kw)   # 5x cheaper executions for the deep parts
+    return ex
+
+
+RULE = ("real add_message()/add_vmessage()/flush_message()/process_io()/get_user_command()/remove_interactive() on a scripted "
+        "runtime; one execution = a fresh connection, a scenario, and an answer chosen at EVERY send(): all | each partial count "
+        "1..len-1 (ring 8/16; {1, len/2, len-1} at 4096) | EWOULDBLOCK | EINTR | EPIPE, all answer vectors with <= B non-default "
+        "answers. Scenario = ring start offset x N writes (length 0..2*size+1; LF at every position for lengths <= 6, else none/"
+        "first/last/at size-1; at 4096: 12 boundary lengths x 5 LF positions, 6 start offsets) issued from LPC receive() or by "
+        "add_vmessage() x what follows each write {next write at once | flush_messages() efun | end of cycle (per-cycle flush in "
+        "get_user_command) | cycle with EVENT_WRITE} x {drain then hang-up | hang-up at once (flush in remove_interactive)}. "
+        "Logical ring size 8 and 16 (wrap/w_comm_scaled.c, struct layout unchanged, rest of message_buf[] is a canary) and the real "
+        "4096. Oracle: reference FIFO of the LF->CRLF expansion: every send() must offer exactly the next pending bytes; after every "
+        "write and at every poll the ring content must equal the FIFO minus a dropped tail of the message just added; a tail may be "
+        "dropped only if the ring could not take the next unit while the socket refused data (or the connection is dead), never "
+        "between CR and LF; no send() after EPIPE; producer/consumer/length consistent; bytes pending at a poll => EVENT_WRITE "
+        "requested; with an accepting socket everything drains")
+
+ASSUME = ["connections are made on the ASCII port so that the driver itself writes nothing (the telnet port's own negotiation strings "
+          "go through the same add_message/flush_message)",
+          "send() never returns 0 for a non-empty buffer (a stream socket does not)",
+          "'write interest on iff bytes pending' is checked in the direction that matters for delivery (pending => interest); interest "
+          "without pending bytes (one spurious wake-up after each write) is counted, not failed",
+          "the console user (write() to stdout, always accepts) is not covered",
+          "scaled ring sizes are logical sizes inside comm.c only; every scaled part is paired with a part at 4096"]
+
+
+def parts(ck):
+    ex = build(ck)
+    q = ck.tier == "quick"
+    P = []
+    def enum(exe, args, tag, batch=50, deadline=200):
+        P.append(("enum", ex[exe], args, tag, batch, deadline))
+    def explore(exe, args, tag, budget, deadline):
+        P.append(("explore", ex[exe], args, tag, budget, deadline))
+    if q:
+        enum("h_c14s8", ["--nw=1", "--budget=2", "--pre=all"], "r8-1w-b2", 50, 100)
+        enum("h_c14s8p", ["--nw=2", "--budget=1", "--pre=none"], "r8-2w-b1", 200, 150)
+        enum("h_c14s16", ["--nw=1", "--budget=1", "--pre=two"], "r16-1w-b1", 50, 100)
+        enum("h_c14", ["--nw=1", "--budget=1"], "r4096-1w-b1", 20, 100)
+        explore("h_c14s8p", ["--nw=1"], "x-r8-1w", 1, 100)
+    else:
+        enum("h_c14s8", ["--nw=1", "--budget=2", "--pre=all"], "r8-1w-b2", 50, 300)
+        enum("h_c14s8p", ["--nw=1", "--budget=3", "--pre=all"], "r8-1w-b3", 20, 600)
+        enum("h_c14s8", ["--nw=2", "--budget=1", "--pre=none"], "r8-2w-b1-asan", 200, 500)
+        enum("h_c14s8p", ["--nw=2", "--budget=2", "--pre=none", "--lfeach=3"], "r8-2w-b2", 50, 900)
+        enum("h_c14s8p", ["--nw=3", "--budget=0", "--pre=none", "--lfeach=2", "--kinds=1"], "r8-3w-b0", 2000, 400)
+        enum("h_c14s8p", ["--nw=3", "--budget=1", "--pre=none", "--lfeach=0", "--maxlen=9", "--kinds=1"], "r8-3w-b1", 500, 600)
+        enum("h_c14s16", ["--nw=1", "--budget=1", "--pre=all"], "r16-1w-b1-asan", 50, 300)
+        enum("h_c14s16p", ["--nw=1", "--budget=2", "--pre=two"], "r16-1w-b2", 20, 600)
+        enum("h_c14s16p", ["--nw=2", "--budget=1", "--pre=none", "--lfeach=2"], "r16-2w-b1", 100, 600)
+        enum("h_c14", ["--nw=1", "--budget=2"], "r4096-1w-b2", 10, 600)
+        enum("h_c14p", ["--nw=2", "--budget=1"], "r4096-2w-b1", 50, 600)
+        explore("h_c14s8p", ["--nw=1"], "x-r8-1w", 2, 400)
+        explore("h_c14s8", ["--nw=1"], "x-r8-1w-asan", 1, 300)
+    import os
+    only = os.environ.get("VERIF_PARTS")      # development aid: run a subset of the parts (the delivered tiers run all of them)
+    if only:
+        P = [p for p in P if (p[2] if len(p) == 5 else p[3]) in only.split(",")]
+    return P
+
+
+def run(ck):
+    for kind, exe, args, tag, a, deadline in parts(ck):
+        if kind == "enum":
+            ck.enum(exe, args, tag, batch=a, deadline_s=deadline, timeout_ms=120000)
+        else:
+            ck.explore(exe, args, tag, budget=a, deadline_s=deadline)
+    tot = lambda name: sum(p.get("counters", {}).get(name, 0) for p in ck.parts)
+    execs = tot("executions")
+    cov = {
+        "states": max(1, sum(p.get("states", 0) for p in ck.parts if p.get("mode") == "explore")),
+        "transitions": max(1, tot("send_calls")),
+        "traces_validated_against_impl": execs, "executions": execs,
+        "scenarios": sum(p.get("evaluations", 0) for p in ck.parts),
+        "send_deviations": tot("send_deviations"), "tails_dropped": tot("tails_dropped"),
+        "executions_with_wrapped_pending_data": tot("executions_with_wrapped_pending_data"),
+        "nontrivial_executions": tot("nontrivial"),
+        "exhaustive": all(p.get("exhaustive") for p in ck.parts) if ck.parts else False,
+        "budget_completed": {p["part"]: p.get("budget_completed", p.get("args")) for p in ck.parts},
+        "rule": RULE,
+        "explanation": "every execution runs the real code in lock-step with the reference FIFO; transitions = send() calls answered by "
+                       "the environment; 'states' counts only the vx --explore parts (the --enum parts enumerate answer vectors in-process)",
+    }
+    ck.finish(cov, assumptions=ASSUME)
+
+
+def selftest(ck):
+    """break the environment (not the repo): the oracle must fire"""
+    ex = build(ck)
+    bad = 0
+    cases = [(1, "the scripted socket reports one byte less than it took (a byte would be sent twice)", "sent-bytes-are-not-the-next-pending-bytes"),
+             (2, "a pending byte in the ring flips after a write", "ring-content-differs-from-pending-bytes")]
+    for st, what, expect in cases:
+        ck2 = vlib.Check("C14", "quick", 0, LEVEL)
+        ck2.enum(ex["h_c14s8"], ["--nw=1", "--budget=1", "--pre=none", "--selftest=%d" % st], "selftest%d" % st, batch=100)
+        hit = [k for k in ck2.fails if expect in k]
+        if not hit:
+            print("SELFTEST-FAILED C14 variant %d (%s) raised %s" % (st, what, sorted(ck2.fails)[:4])); bad = 1
+        else:
+            print("selftest %d ok (%s): %s" % (st, what, hit[:2]))
+    return bad
